@@ -58,8 +58,8 @@ def run_prefix(n: int, hist: List[Dict[str, Any]], k: int, salt: int) -> Tuple[L
         try:
             if h["op"] in ("limit", "skip", "tail"):
                 r = getattr(q, name)(h["c"])
-                if last and r is not q:
-                    bad.append(f"{name}:does-not-return-self")
+                if r is not None:
+                    qs[h["q"]] = r  # whichever object the operation hands back is the query from now on
             elif h["op"] == "take":
                 r = q.take(h["c"])
                 qs[2 + sum(x["created"] for x in hist[:j])] = r
@@ -132,7 +132,7 @@ def replay(rec: Dict[str, Any]) -> List[Tuple[str, Dict[str, Any], str]]:
 def run(chk: Check, tier: str, seed: int) -> None:
     recs: List[Dict[str, Any]] = []
     seen = set()
-    runs = [(4, 1), (4, 2), (3, 3)] if tier == "quick" else [(6, 1), (6, 2), (5, 3), (3, 4)]
+    runs = [(4, 1), (4, 2), (3, 3)] if tier == "quick" else [(6, 1), (6, 2), (5, 3), (2, 4)]
     for maxn, maxops in runs:
         r = tlc("MC_QueryIter", CFG.format(maxn=maxn, maxops=maxops, next="Next", props=PROPS), timeout=3000)
         chk.add_tlc(r)
@@ -141,7 +141,7 @@ def run(chk: Check, tier: str, seed: int) -> None:
             if k not in seen:
                 seen.add(k)
                 recs.append(x)
-    num, depth = (3000, 8) if tier == "quick" else (100000, 11)
+    num, depth = (3000, 8) if tier == "quick" else (60000, 11)
     r = tlc("MC_QueryIter", CFG.format(maxn=6, maxops=depth - 1, next="NextSim", props=""), simulate=(num, depth), seed=seed, workers=1, timeout=3000)
     chk.add_tlc(r)
     for x in r.records:
